@@ -39,6 +39,8 @@ pub enum RuntimeErrorKind {
     /// Type mismatch error that can't be caught in semantic analysis
     TypeMismatch,
     InvalidIndex,
+    /// A variable was used before its declaration statement ran
+    UninitializedVariable,
     ProcessUnsupported,
     ProcessDenied,
     ProcessSpawnFailed(&'static str),
@@ -57,6 +59,7 @@ impl AsStr for RuntimeErrorKind {
             RuntimeErrorKind::IndexOutOfBounds => "Index out of bounds",
             RuntimeErrorKind::TypeMismatch => "Type mismatch",
             RuntimeErrorKind::InvalidIndex => "Invalid index",
+            RuntimeErrorKind::UninitializedVariable => "Variable used before declaration",
             RuntimeErrorKind::ProcessUnsupported => "Unsupported process execution",
             RuntimeErrorKind::ProcessDenied => "Process execution denied",
             RuntimeErrorKind::ProcessSpawnFailed(..) => "Process spawn failed",
@@ -388,6 +391,10 @@ impl<'a> Runtime<'a> {
                         span: err.span,
                         message: ArenaCow::Borrowed("Index value don pass array length"),
                     }],
+                    RuntimeErrorKind::TypeMismatch if err.name.is_empty() => vec![Label {
+                        span: err.span,
+                        message: ArenaCow::Borrowed("Dis value type no fit dis operation"),
+                    }],
                     RuntimeErrorKind::TypeMismatch => vec![Label {
                         span: err.span,
                         message: ArenaCow::Owned(arena_format!(
@@ -400,6 +407,10 @@ impl<'a> Runtime<'a> {
                     RuntimeErrorKind::InvalidIndex => vec![Label {
                         span: err.span,
                         message: ArenaCow::Borrowed("Index value no be whole number"),
+                    }],
+                    RuntimeErrorKind::UninitializedVariable => vec![Label {
+                        span: err.span,
+                        message: ArenaCow::Borrowed("Dis variable never get value yet"),
                     }],
                     RuntimeErrorKind::ProcessUnsupported => vec![Label {
                         span: err.span,
@@ -447,12 +458,18 @@ impl<'a> Runtime<'a> {
                 }
                 Ok(ExecFlow::Continue)
             }
-            Stmt::AssignExisting { var, expr, .. } => {
+            Stmt::AssignExisting { var, var_span, expr, .. } => {
                 let val = self.eval_expr(expr)?;
-                if let Some(local) = self.bound_stmt_local(stmt) {
-                    self.assign_bound_local(local, val);
+                let assigned = if let Some(local) = self.bound_stmt_local(stmt) {
+                    self.assign_bound_local(local, val)
                 } else {
-                    self.assign_var(var, val);
+                    self.assign_var(var, val)
+                };
+                if !assigned {
+                    return Err(RuntimeError::new(
+                        RuntimeErrorKind::UninitializedVariable,
+                        *var_span,
+                    ));
                 }
                 Ok(ExecFlow::Continue)
             }
@@ -466,9 +483,8 @@ impl<'a> Runtime<'a> {
                 let is_truthy = match val {
                     Value::Bool(b) => b,
                     Value::Null => false, // null is falsy
-                    _ => unreachable!(
-                        "Semantic analysis guarantees only boolean expressions in conditions"
-                    ),
+                    // A dynamically typed condition can be anything at run time
+                    _ => return Err(RuntimeError::new(RuntimeErrorKind::TypeMismatch, cond.span())),
                 };
                 if is_truthy {
                     self.exec_block_with_flow(then_b)
@@ -484,9 +500,12 @@ impl<'a> Runtime<'a> {
                     let should_continue = match val {
                         Value::Bool(b) => b,
                         Value::Null => false,
-                        _ => unreachable!(
-                            "Semantic analysis guarantees only boolean expressions in loop conditions"
-                        ),
+                        _ => {
+                            return Err(RuntimeError::new(
+                                RuntimeErrorKind::TypeMismatch,
+                                cond.span(),
+                            ));
+                        }
                     };
                     if !should_continue {
                         break;
@@ -614,18 +633,18 @@ impl<'a> Runtime<'a> {
             Expr::Number(n, ..) => Ok(Value::Number(
                 n.parse::<f64>().expect("Scanner should guarantee valid number format"),
             )),
-            Expr::String { parts, .. } => Ok(self.eval_string_expr(expr, parts)),
+            Expr::String { parts, .. } => self.eval_string_expr(expr, parts),
             Expr::Bool(b, ..) => Ok(Value::Bool(*b)),
             Expr::Null(..) => Ok(Value::Null),
-            Expr::Var(v, ..) => {
+            Expr::Var(v, span) => {
                 let frame = self.frame;
-                let val = if let Some(local) = self.bound_expr_local(expr) {
+                // A hoisted function can run before the `make` of a variable it captures.
+                if let Some(local) = self.bound_expr_local(expr) {
                     self.lookup_local(local, frame)
                 } else {
                     self.lookup_var(v, frame)
                 }
-                .expect("Semantic analysis should guarantee all variables are declared");
-                Ok(val)
+                .ok_or_else(|| RuntimeError::new(RuntimeErrorKind::UninitializedVariable, *span))
             }
             Expr::Binary { op, lhs, rhs, span } => match op {
                 BinaryOp::And => {
@@ -633,11 +652,14 @@ impl<'a> Runtime<'a> {
                     if matches!(l, Value::Bool(false) | Value::Null) {
                         return Ok(Value::Bool(false)); // Short-circuit evaluation
                     }
+                    if !matches!(l, Value::Bool(..)) {
+                        return Err(RuntimeError::new(RuntimeErrorKind::TypeMismatch, *span));
+                    }
                     let r = self.eval_expr(rhs)?;
                     match r {
                         Value::Bool(b) => Ok(Value::Bool(b)),
                         Value::Null => Ok(Value::Bool(false)),
-                        _ => unreachable!("Semantic analysis guarantees boolean expressions"),
+                        _ => Err(RuntimeError::new(RuntimeErrorKind::TypeMismatch, *span)),
                     }
                 }
                 BinaryOp::Or => {
@@ -645,11 +667,14 @@ impl<'a> Runtime<'a> {
                     if let Value::Bool(true) = l {
                         return Ok(Value::Bool(true)); // Short-circuit evaluation
                     }
+                    if !matches!(l, Value::Bool(..) | Value::Null) {
+                        return Err(RuntimeError::new(RuntimeErrorKind::TypeMismatch, *span));
+                    }
                     let r = self.eval_expr(rhs)?;
                     match r {
                         Value::Bool(b) => Ok(Value::Bool(b)),
                         Value::Null => Ok(Value::Bool(false)),
-                        _ => unreachable!("Semantic analysis guarantees boolean expressions"),
+                        _ => Err(RuntimeError::new(RuntimeErrorKind::TypeMismatch, *span)),
                     }
                 }
                 _ => {
@@ -671,7 +696,7 @@ impl<'a> Runtime<'a> {
                             BinaryOp::Eq => Ok(Value::Bool((lv - rv).abs() <= FLOAT_EQ_EPS)),
                             BinaryOp::Gt => Ok(Value::Bool(lv > rv)),
                             BinaryOp::Lt => Ok(Value::Bool(lv < rv)),
-                            _ => unreachable!("Semantic analysis guarantees valid number ops"),
+                            _ => Err(RuntimeError::new(RuntimeErrorKind::TypeMismatch, *span)),
                         },
                         (Value::Str(ls), Value::Str(rs)) => match op {
                             BinaryOp::Add => {
@@ -684,10 +709,9 @@ impl<'a> Runtime<'a> {
                             BinaryOp::Eq => Ok(Value::Bool(ls == rs)),
                             BinaryOp::Gt => Ok(Value::Bool(ls > rs)),
                             BinaryOp::Lt => Ok(Value::Bool(ls < rs)),
-                            _ => unreachable!("Semantic analysis guarantees valid string ops"),
+                            _ => Err(RuntimeError::new(RuntimeErrorKind::TypeMismatch, *span)),
                         },
-                        (Value::Str(ls), Value::Number(n)) => {
-                            assert!(matches!(op, BinaryOp::Add));
+                        (Value::Str(ls), Value::Number(n)) if matches!(op, BinaryOp::Add) => {
                             let mut writer = LenWriter(0);
                             write!(writer, "{n}").unwrap();
                             let mut s =
@@ -696,8 +720,7 @@ impl<'a> Runtime<'a> {
                             write!(s, "{n}").unwrap();
                             Ok(Value::Str(ArenaCow::Owned(s)))
                         }
-                        (Value::Number(n), Value::Str(rs)) => {
-                            assert!(matches!(op, BinaryOp::Add));
+                        (Value::Number(n), Value::Str(rs)) if matches!(op, BinaryOp::Add) => {
                             let mut writer = LenWriter(0);
                             write!(writer, "{n}").unwrap();
                             let mut s =
@@ -710,31 +733,31 @@ impl<'a> Runtime<'a> {
                             BinaryOp::Eq => Ok(Value::Bool(lv == rv)),
                             BinaryOp::Gt => Ok(Value::Bool(lv && !rv)), // false < true
                             BinaryOp::Lt => Ok(Value::Bool(!lv & rv)),
-                            _ => unreachable!("Semantic analysis guarantees valid bool ops"),
+                            _ => Err(RuntimeError::new(RuntimeErrorKind::TypeMismatch, *span)),
                         },
                         (Value::Null, Value::Null) => match op {
                             BinaryOp::Eq => Ok(Value::Bool(true)),
                             BinaryOp::Gt | BinaryOp::Lt => Ok(Value::Bool(false)),
-                            _ => unreachable!("Semantic analysis guarantees valid null ops"),
+                            _ => Err(RuntimeError::new(RuntimeErrorKind::TypeMismatch, *span)),
                         },
                         (Value::Null, ..) | (.., Value::Null) => match op {
                             BinaryOp::Eq | BinaryOp::Gt | BinaryOp::Lt => Ok(Value::Bool(false)),
-                            _ => unreachable!("Semantic analysis guarantees valid null ops"),
+                            _ => Err(RuntimeError::new(RuntimeErrorKind::TypeMismatch, *span)),
                         },
-                        _ => {
-                            unreachable!("Semantic analysis guarantees matching operand types")
-                        }
+                        // Operand types that only meet at run time (parameters, array
+                        // elements, pop() results) can fail to match there.
+                        _ => Err(RuntimeError::new(RuntimeErrorKind::TypeMismatch, *span)),
                     }
                 }
             },
 
-            Expr::Unary { op, expr, .. } => {
+            Expr::Unary { op, expr, span } => {
                 let v = self.eval_expr(expr)?;
                 match (op, v) {
                     (UnaryOp::Not, Value::Bool(b)) => Ok(Value::Bool(!b)),
                     (UnaryOp::Not, Value::Null) => Ok(Value::Bool(true)),
                     (UnaryOp::Minus, Value::Number(n)) => Ok(Value::Number(-n)),
-                    _ => unreachable!("Semantic analysis guarantees valid unary expressions"),
+                    _ => Err(RuntimeError::new(RuntimeErrorKind::TypeMismatch, *span)),
                 }
             }
             Expr::Array { elements, .. } => {
@@ -745,11 +768,11 @@ impl<'a> Runtime<'a> {
                 }
                 Ok(Value::Array(values))
             }
-            Expr::Index { array, index, index_span, .. } => {
+            Expr::Index { array, index, index_span, span } => {
                 let array_value = self.eval_expr(array)?;
                 let index_value = self.eval_expr(index)?;
                 let Value::Array(mut items) = array_value else {
-                    unreachable!("Semantic analysis guarantees only arrays can be indexed")
+                    return Err(RuntimeError::new(RuntimeErrorKind::TypeMismatch, *span));
                 };
 
                 let Value::Number(index_number) = index_value else {
@@ -893,7 +916,7 @@ impl<'a> Runtime<'a> {
             }
             GlobalBuiltin::Command => {
                 let Value::Str(program) = &arg_values[0] else {
-                    unreachable!("Semantic analysis guarantees string arg")
+                    return Err(RuntimeError::new(RuntimeErrorKind::TypeMismatch, span));
                 };
                 Ok(Value::Host(HostHandle::new_in(
                     self.frame,
@@ -910,6 +933,13 @@ impl<'a> Runtime<'a> {
         args: &'a ArgList<'a>,
         span: Span,
     ) -> Result<Value<'a>, RuntimeError> {
+        // For receivers typed only at run time the argument count was not checked statically.
+        if let Some(builtin) = crate::builtins::MemberBuiltin::from_name(field)
+            && args.args.len() != builtin.arity()
+        {
+            return Err(RuntimeError::new(RuntimeErrorKind::TypeMismatch, span));
+        }
+
         // Mutable methods stay name-directed so lvalue receivers and index expressions are
         // evaluated only on the mutation path.
         if let Some(array_builtin) = ArrayBuiltin::from_name(field)
@@ -926,7 +956,7 @@ impl<'a> Runtime<'a> {
         let receiver = self.eval_expr(object)?;
         match receiver {
             Value::Str(ref s) => match StringBuiltin::from_name(field) {
-                Some(..) => self.eval_string_member_call(s, field, args),
+                Some(..) => self.eval_string_member_call(s, field, args, span),
                 None => Err(RuntimeError::new_with_extras(
                     RuntimeErrorKind::TypeMismatch,
                     span,
@@ -944,7 +974,7 @@ impl<'a> Runtime<'a> {
                 )),
             },
             Value::Array(ref arr) => match ArrayBuiltin::from_name(field) {
-                Some(..) => self.eval_array_member_call(arr, field, args),
+                Some(..) => self.eval_array_member_call(arr, field, args, span),
                 None => Err(RuntimeError::new_with_extras(
                     RuntimeErrorKind::TypeMismatch,
                     span,
@@ -977,8 +1007,7 @@ impl<'a> Runtime<'a> {
                     )),
                 },
             },
-            Value::Bool(..) => unimplemented!("Boolean methods not implemented yet"),
-            Value::Null => Err(RuntimeError::new_with_extras(
+            Value::Bool(..) | Value::Null => Err(RuntimeError::new_with_extras(
                 RuntimeErrorKind::TypeMismatch,
                 span,
                 field,
@@ -1118,6 +1147,7 @@ impl<'a> Runtime<'a> {
         array: &Vec<Value<'a>, &'a Arena>,
         field: &'a str,
         args: &'a ArgList<'a>,
+        span: Span,
     ) -> Result<Value<'a>, RuntimeError> {
         let array_builtin = ArrayBuiltin::from_name(field)
             .expect("Semantic analysis guarantees valid array method");
@@ -1126,7 +1156,7 @@ impl<'a> Runtime<'a> {
             ArrayBuiltin::Join => {
                 let sep = self.eval_expr(args.args[0])?;
                 let Value::Str(sep) = sep else {
-                    unreachable!("Semantic analysis guarantees string arg")
+                    return Err(RuntimeError::new(RuntimeErrorKind::TypeMismatch, span));
                 };
                 let result = ArrayBuiltin::join(array, &sep, self.frame);
                 Ok(Value::Str(ArenaCow::Owned(result)))
@@ -1185,6 +1215,7 @@ impl<'a> Runtime<'a> {
         s: &ArenaCow<'a>,
         field: &'a str,
         args: &'a ArgList<'a>,
+        span: Span,
     ) -> Result<Value<'a>, RuntimeError> {
         let string_builtin = StringBuiltin::from_name(field)
             .expect("Semantic analysis guarantees valid string method");
@@ -1198,7 +1229,7 @@ impl<'a> Runtime<'a> {
                         let s = StringBuiltin::slice(s, start, end, self.frame);
                         Ok(Value::Str(ArenaCow::Owned(s)))
                     }
-                    _ => unreachable!("Semantic analysis guarantees number args"),
+                    _ => Err(RuntimeError::new(RuntimeErrorKind::TypeMismatch, span)),
                 }
             }
             StringBuiltin::ToUppercase => {
@@ -1217,7 +1248,7 @@ impl<'a> Runtime<'a> {
                 let needle = self.eval_expr(args.args[0])?;
                 match needle {
                     Value::Str(n) => Ok(Value::Number(StringBuiltin::find(s, &n))),
-                    _ => unreachable!("Semantic analysis guarantees string arg"),
+                    _ => Err(RuntimeError::new(RuntimeErrorKind::TypeMismatch, span)),
                 }
             }
             StringBuiltin::Replace => {
@@ -1228,7 +1259,7 @@ impl<'a> Runtime<'a> {
                         let result = StringBuiltin::replace(s, &o, &n, self.frame);
                         Ok(Value::Str(ArenaCow::Owned(result)))
                     }
-                    _ => unreachable!("Semantic analysis guarantees string args"),
+                    _ => Err(RuntimeError::new(RuntimeErrorKind::TypeMismatch, span)),
                 }
             }
             StringBuiltin::ToNumber => Ok(Value::Number(StringBuiltin::to_number(s))),
@@ -1242,7 +1273,7 @@ impl<'a> Runtime<'a> {
                             .for_each(|s| collection.push(Value::Str(ArenaCow::Owned(s))));
                         Ok(Value::Array(collection))
                     }
-                    _ => unreachable!("Semantic analysis guarantees string arg"),
+                    _ => Err(RuntimeError::new(RuntimeErrorKind::TypeMismatch, span)),
                 }
             }
         }
@@ -1273,7 +1304,7 @@ impl<'a> Runtime<'a> {
                 } else {
                     self.lookup_var_mut(name)
                 }
-                .expect("Semantic analysis guarantees variable exists");
+                .ok_or_else(|| RuntimeError::new(RuntimeErrorKind::UninitializedVariable, span))?;
                 match var {
                     Value::Array(arr) => Ok(arr),
                     _ => Err(RuntimeError::new_with_extras(
@@ -1285,7 +1316,10 @@ impl<'a> Runtime<'a> {
                 }
             }
             Expr::Index { .. } => {
-                let (base_expr, base_var, index_exprs) = self.flatten_index_target(object);
+                let Some((base_expr, base_var, index_exprs)) = self.flatten_index_target(object)
+                else {
+                    return Err(RuntimeError::new(RuntimeErrorKind::TypeMismatch, span));
+                };
 
                 let mut evaluated_indices = Vec::with_capacity_in(index_exprs.len(), self.frame);
                 for (index_expr, index_span) in &index_exprs {
@@ -1298,7 +1332,7 @@ impl<'a> Runtime<'a> {
                 } else {
                     self.lookup_var_mut(base_var)
                 }
-                .expect("Semantic analysis guarantees variable exists");
+                .ok_or_else(|| RuntimeError::new(RuntimeErrorKind::UninitializedVariable, span))?;
 
                 for (idx, index_span) in &evaluated_indices {
                     match slot {
@@ -1348,7 +1382,7 @@ impl<'a> Runtime<'a> {
                 } else {
                     self.lookup_var_mut(name)
                 }
-                .expect("Semantic analysis guarantees variable exists");
+                .ok_or_else(|| RuntimeError::new(RuntimeErrorKind::UninitializedVariable, span))?;
                 match var {
                     Value::Host(host) => match host.get_mut() {
                         HostValue::ProcessCommand(command) => Ok(command),
@@ -1368,7 +1402,10 @@ impl<'a> Runtime<'a> {
                 }
             }
             Expr::Index { .. } => {
-                let (base_expr, base_var, index_exprs) = self.flatten_index_target(object);
+                let Some((base_expr, base_var, index_exprs)) = self.flatten_index_target(object)
+                else {
+                    return Err(RuntimeError::new(RuntimeErrorKind::TypeMismatch, span));
+                };
 
                 let mut evaluated_indices = Vec::with_capacity_in(index_exprs.len(), self.frame);
                 for (index_expr, index_span) in &index_exprs {
@@ -1381,7 +1418,7 @@ impl<'a> Runtime<'a> {
                 } else {
                     self.lookup_var_mut(base_var)
                 }
-                .expect("Semantic analysis guarantees variable exists");
+                .ok_or_else(|| RuntimeError::new(RuntimeErrorKind::UninitializedVariable, span))?;
 
                 for (idx, index_span) in &evaluated_indices {
                     match slot {
@@ -1474,9 +1511,13 @@ impl<'a> Runtime<'a> {
         }
     }
 
-    fn eval_string_expr(&mut self, expr: ExprRef<'a>, parts: &StringParts<'a>) -> Value<'a> {
+    fn eval_string_expr(
+        &mut self,
+        expr: ExprRef<'a>,
+        parts: &StringParts<'a>,
+    ) -> Result<Value<'a>, RuntimeError> {
         match parts {
-            StringParts::Static(content) => Value::Str(ArenaCow::borrowed(content)),
+            StringParts::Static(content) => Ok(Value::Str(ArenaCow::borrowed(content))),
             StringParts::Interpolated(segments) => {
                 let mut result = ArenaString::with_capacity_in(segments.len(), self.frame);
                 for (segment_idx, segment) in segments.iter().enumerate() {
@@ -1492,12 +1533,17 @@ impl<'a> Runtime<'a> {
                             } else {
                                 self.lookup_var_ref(var)
                             }
-                            .expect("Semantic analysis should guarantee variable exists");
+                            .ok_or_else(|| {
+                                RuntimeError::new(
+                                    RuntimeErrorKind::UninitializedVariable,
+                                    expr.span(),
+                                )
+                            })?;
                             write!(result, "{value}").unwrap();
                         }
                     }
                 }
-                Value::Str(ArenaCow::owned(result))
+                Ok(Value::Str(ArenaCow::owned(result)))
             }
         }
     }
@@ -1526,7 +1572,8 @@ impl<'a> Runtime<'a> {
         }
     }
 
-    fn assign_bound_local(&mut self, local: LocalId, val: Value<'a>) {
+    /// Returns false when no live slot exists (the declaration has not run yet).
+    fn assign_bound_local(&mut self, local: LocalId, val: Value<'a>) -> bool {
         let has_frame = self.has_frame_arena();
         let pool = &self.pool;
         let frame = self.frame;
@@ -1534,13 +1581,13 @@ impl<'a> Runtime<'a> {
         for scope in self.env.iter_mut().rev() {
             if let Some(slot) = scope.iter_mut().rev().find(|slot| slot.id == Some(local)) {
                 Self::overwrite_slot(&mut slot.value, val, has_frame, pool, frame);
-                return;
+                return true;
             }
         }
-        unreachable!("Semantic analysis guarantees variable exists");
+        false
     }
 
-    fn assign_var(&mut self, name: &'a str, val: Value<'a>) {
+    fn assign_var(&mut self, name: &'a str, val: Value<'a>) -> bool {
         let has_frame = self.has_frame_arena();
         let pool = &self.pool;
         let frame = self.frame;
@@ -1548,10 +1595,10 @@ impl<'a> Runtime<'a> {
         for scope in self.env.iter_mut().rev() {
             if let Some(slot) = scope.iter_mut().rev().find(|slot| slot.name == name) {
                 Self::overwrite_slot(&mut slot.value, val, has_frame, pool, frame);
-                return;
+                return true;
             }
         }
-        unreachable!("Semantic analysis guarantees variable exists");
+        false
     }
 
     /// Moves a function return value across a frame reset boundary.
@@ -1620,7 +1667,9 @@ impl<'a> Runtime<'a> {
         value: Value<'a>,
         span: Span,
     ) -> Result<(), RuntimeError> {
-        let (base_expr, base_var, index_exprs) = self.flatten_index_target(target);
+        let Some((base_expr, base_var, index_exprs)) = self.flatten_index_target(target) else {
+            return Err(RuntimeError::new(RuntimeErrorKind::TypeMismatch, span));
+        };
 
         let mut evaluated_indices = Vec::with_capacity_in(index_exprs.len(), self.frame);
         for (index_expr, index_span) in &index_exprs {
@@ -1637,7 +1686,7 @@ impl<'a> Runtime<'a> {
         } else {
             self.lookup_var_mut(base_var)
         }
-        .expect("Semantic analysis guarantees variable exists");
+        .ok_or_else(|| RuntimeError::new(RuntimeErrorKind::UninitializedVariable, span))?;
 
         for (i, (idx, index_span)) in evaluated_indices.iter().enumerate() {
             let is_last = i + 1 == evaluated_indices.len();
@@ -1669,7 +1718,7 @@ impl<'a> Runtime<'a> {
     fn flatten_index_target(
         &self,
         mut target: ExprRef<'a>,
-    ) -> (ExprRef<'a>, &'a str, Vec<(ExprRef<'a>, Span), &'a Arena>) {
+    ) -> Option<(ExprRef<'a>, &'a str, Vec<(ExprRef<'a>, Span), &'a Arena>)> {
         let mut indices = Vec::new_in(self.frame);
         loop {
             match target {
@@ -1679,9 +1728,10 @@ impl<'a> Runtime<'a> {
                 }
                 Expr::Var(name, ..) => {
                     indices.reverse();
-                    return (target, *name, indices);
+                    return Some((target, *name, indices));
                 }
-                _ => unreachable!("Semantic analysis guarantees valid index assignment target",),
+                // The chain is rooted in a temporary (call result, literal): nothing to mutate.
+                _ => return None,
             }
         }
     }
